@@ -38,10 +38,36 @@ m = {
     "notes": "see DESIGN.md; known findings and fixes in known_findings.txt",
     "not_applicable": [],
 }
+import re
+
+
+def theorems_of(spec, pid):
+    names = []
+    for f in spec.get("props_files", [pid + ".v"]):
+        t = re.sub(r"\(\*.*?\*\)", "", open(os.path.join(ROOT, "coq", "Props", f)).read(), flags=re.S)
+        names += re.findall(r"^\s*(?:Theorem|Corollary)\s+([A-Za-z0-9_']+)", t, flags=re.M)
+    return names
+
+
 for p in props:
     pid = p["id"]
     if pid in PROPS:
         spec = PROPS[pid]
+        comps = [c["name"] for c in spec.get("components", [])]
+        names = theorems_of(spec, pid)
+        spec = dict(spec)
+        spec.setdefault("level_text", "Proof: %d Coq theorems (%s) over the executable Gallina model(s) of the anchored code, each for all "
+                        "inputs/histories by induction, invariants or refinement and each `Closed under the global context` "
+                        "(re-checked by coqc on every run, by coqchk in the thorough tier). The model is tied to /repo on every run: %s; "
+                        "property monitors on the implementation's own traces give the concrete failing input when something breaks."
+                        % (len(names), ", ".join(names),
+                           ("differential replay of seeded generated histories (harness component%s %s built from /repo vs the "
+                            "model extracted to OCaml)" % ("s" if len(comps) > 1 else "", ", ".join(comps))) if comps else
+                           "coq/Gen/Accesses.v is regenerated from the Go source by tools/lockset and the discipline re-proved over it; "
+                           "a -race stress harness supports the translation"))
+        spec.setdefault("level_note", "Trusted: Coq 8.16.1 kernel; no axioms; extraction through ExtrOcamlBasic only; the Go harness, "
+                        "generators and monitors; tools/consts (constants regenerated into coq/Gen/Consts.v). Assumed: " +
+                        "; ".join(spec.get("assumptions", [])) + ". " + " ".join(spec.get("trusted_base", [])))
         m["checks"].append({
             "property_id": pid,
             "quick_cmd": "./check %s quick" % pid,
